@@ -296,6 +296,7 @@ def _exact_unsat(ctx, neg):
 
 # --------------------------------------------------------------------------- second solver (cvc5) on sampled obligations
 XCHECK_EVERY = int(os.environ.get("SYMX_XCHECK", "0") or 0)      # every k-th obligation that z3 answered 'unsat' (per worker); 0 = off
+XCHECK_FIRST = 8
 XCHECK_TLIMIT_MS = int(os.environ.get("SYMX_XCHECK_TLIMIT_MS", "10000"))
 
 
@@ -332,7 +333,7 @@ def cross_check(ctx, label, neg):
         return None
     d = _xc(ctx)
     d["seen"] += 1
-    if d["seen"] % XCHECK_EVERY:
+    if d["seen"] > XCHECK_FIRST and d["seen"] % XCHECK_EVERY:     # the first few of every worker always, then every k-th
         return None
     t = time.time()
     try:
